@@ -279,7 +279,7 @@ func TestC08(t *testing.T) {
 		"the second half of the property (origins persist along the CFG) is exercised only indirectly, through the summaries built from the final state"}
 	defer rec.Flush()
 	replayKnown(t, "C08")
-	rapidSetup(env.Pick(1500, 40000), 8)
+	rapidSetup(env.Pick(1500, 15000), 8)
 	rapid.Check(t, func(rt *rapid.T) {
 		prog := gogen.Generate(rt, gogen.FlowProfile(nil))
 		files := map[string]string{"main.go": prog.Main, "prelude.go": gogen.AnalysedPrelude}
